@@ -87,6 +87,9 @@ class Run:
                 continue
             if r.get("requires_sat") == "unsat":
                 self.undecided("%s:%s" % (r["file"], r["qualname"]), "contradictory precondition (vacuous contract)")
+            own = reg.contracts.get(r["qualname"])
+            if own is not None and own.note and not own.assumed:
+                self.trust("%s: %s" % (r["qualname"], own.note))
             for q in r["called"]:
                 c = reg.contracts.get(q)
                 if c is not None and c.assumed:
